@@ -51,7 +51,13 @@ func yamlUnmarshalStream(in []byte) ([]any, error) {
 	parts := yamlRE.Split(string(in), -1)
 	ret := []any{}
 
-	for _, s := range parts {
+	for i, s := range parts {
+		if i == 0 && len(parts) > 1 && strings.TrimSpace(s) == "" {
+			// A marker on the first line starts the first document; it does
+			// not follow an empty one.
+			continue
+		}
+
 		// A part can still hold several documents when a document marker is
 		// not alone on its line ("--- # comment", "--- ", "---\r"): decode all
 		// of them rather than only the first.
